@@ -33,6 +33,7 @@ impl EvLog {
 // ---------------------------------------------------------------- panic capture
 thread_local! {
     static LAST_PANIC: RefCell<Option<(String, String)>> = RefCell::new(None);
+    static IN_GUARD: RefCell<u32> = RefCell::new(0);
 }
 
 pub fn install_panic_hook() {
@@ -45,13 +46,19 @@ pub fn install_panic_hook() {
             "<non-string panic>".to_string()
         };
         let loc = info.location().map(|l| format!("{}:{}", l.file(), l.line())).unwrap_or_default();
+        if IN_GUARD.with(|g| *g.borrow()) == 0 {
+            eprintln!("harness panic (outside the code under test): {msg} at {loc}");
+        }
         LAST_PANIC.with(|p| *p.borrow_mut() = Some((msg, loc)));
     }));
 }
 
 /// Run `f`; a panic inside is data: returns Err((message, location)).
 pub fn guarded<R>(f: impl FnOnce() -> R) -> Result<R, (String, String)> {
-    match std::panic::catch_unwind(std::panic::AssertUnwindSafe(f)) {
+    IN_GUARD.with(|g| *g.borrow_mut() += 1);
+    let r = std::panic::catch_unwind(std::panic::AssertUnwindSafe(f));
+    IN_GUARD.with(|g| *g.borrow_mut() -= 1);
+    match r {
         Ok(r) => Ok(r),
         Err(_) => Err(LAST_PANIC.with(|p| p.borrow_mut().take()).unwrap_or(("?".into(), "?".into()))),
     }
